@@ -222,3 +222,13 @@ pub fn c07_hour_to_time_nan() {
     let t = hour_to_time(&p, Prayer::Fajr, f64::NAN);
     assert!(t.num_seconds_from_midnight() == 0, "C07 a NaN hour is rendered as 00:00:00 without panicking");
 }
+
+// constants the formula-shape contracts refer to by name: their values are pinned here (tolerances from the statements)
+#[kani::proof]
+pub fn c02_constants() {
+    crate::vcover!();
+    assert!((CENTER_OF_SUN_ANGLE + 0.8333).abs() <= 0.001, "C02 the rise/set altitude constant is -0.833 degrees (upper limb on the refracted horizon)");
+    assert!((DEGREES_TO_10_BASE * 15. - 1.).abs() <= 1e-12, "C03 hour angles are converted to hours at 15 degrees per hour");
+    assert!(HRS_PER_DAY == 24. && MIN_SEC_PER_HR_MIN == 60. && TWO_PI_DEG == 360., "C01 day, hour and circle constants");
+    assert!(DEF_ROUND_SEC == 30. && AGGRESSIVE_ROUND_SEC == 1., "C11 rounding thresholds are 30 s and 1 s");
+}
